@@ -584,6 +584,8 @@ class Env:
         self.nonzero_with_defs = True
         self.logic = None
         self.guided_tries = 3
+        self.external_only = False   # with external_first: do not fall back to the in-process solver (it can overrun its limits by minutes)
+        self.external_first = False  # ask the system z3 binary (hard time limit: subprocess) before the in-process cascade
         self.use_ratfun = True
         self.rw_stats = {"atoms_rewritten": 0, "atoms_decided_by_normal_form": 0, "too_big": 0, "divisors_proved_nonzero": 0,
                          "divisors_assumed_nonzero": 0}
@@ -1122,6 +1124,17 @@ class Env:
                 pass
         r, m = None, None
         guided_model = False
+        if self.external_first:
+            r3, dt = self._external_unsat(neg, wd)
+            c.solver_s += dt
+            if r3 == "unsat":
+                c.held += 1
+                self.stats["held_by_external_z3"] = self.stats.get("held_by_external_z3", 0) + 1
+                return True
+            if self.external_only:
+                # undecided: reported as unknown (the runner then looks for a concretely failing input; never "held")
+                c.unknown += 1
+                return None
         if self.guided_tries:
             gneg = [neg] + ([lift_bool(margin)] if margin is not None else [])
             r, m, dt = self._guided(gneg, self.guided_tries, wd)
